@@ -875,7 +875,7 @@ func genRtE2E(emit func(string), tier string, rng *Rng) {
 				known := prof.fields[mn]
 				for j := 1 + rng.Intn(5); j > 0; j-- {
 					mode := []int{0, 0, 0, 1, 1, 2, 3}[rng.Intn(7)]
-					if rng.Intn(40) == 0 { // a value of another type than the field's (validation must reject the file)
+					if rng.Intn(400) == 0 { // a value of another type than the field's (validation must reject the file)
 						num := e2eFreeNum(mn)
 						if len(known) > 0 && rng.Bool() {
 							num = known[rng.Intn(len(known))]
